@@ -79,14 +79,14 @@ CLAIM = {
             "every call returns the values of its reply and consumes it to the last byte; a silence costs one request-timed-out and "
             "nothing else; the i-th request carries the id (start + 1 + i) mod 2^16. The real client is "
             "run in real time against scripted peers of every behaviour class on seven transports and compared with the model's outcome "
-            "and bound on every run.",
+            "and bound on every run. At source level (Properties/C05t.v, C12t.v, C07t.v): the transports arm the deadline before any i/o; the TLS wrapper closes the socket after a write timeout; the serial wrapper returns the request-timed-out error after the deadline without reading and masks the driver's short timeout.",
     "note": "PARTIAL: that Go's net.Conn deadlines, time.Sleep, the kernel sockets and the pty/serial driver behave like the model's "
             "read_full_t / sleep (within 150 ms scheduling slack) is validated by the timed harness, not proved; statement execution time "
             "is instantaneous in the model, and so is a Write that fits into the link (one that does not blocks until the deadline, "
             "C07b); the serial wrapper arms no write deadline and is not run against a blocked Write. tcp+tls is not run (tlsSockWrapper.Read/SetDeadline are pass-throughs to the same "
             "net.Conn deadline mechanism); the physical serial line is replaced by a pseudo-terminal. Trusted: kernel, extraction, "
             "modeld glue (ocaml/scn_timed.ml, scn_noread.ml, scn_steady.ml), Go harness (c07*.go), VerifNewClientOnConn / VerifSerialTimings hooks.",
-    "technique": "Coq proof (induction over the timed stream; simulation of the timed by the untimed model on the prefix arrived by the "
+    "technique": "Coq proof over Go source functions translated on every run (GoLite deep embedding; sockets, clock, handler as external functions over an abstract world) + Coq proof (induction over the timed stream; simulation of the timed by the untimed model on the prefix arrived by the "
                  "deadline, reusing the C02 completeness theorems; byte measure for the skip loop) + real-time differential "
                  "correspondence with a watchdog",
 }
